@@ -6,4 +6,5 @@ const int *tu_rs28_log(unsigned *len);
 const unsigned char *tu_rs28_inv(unsigned *len);
 const unsigned char *tu_rs28_mul(unsigned *rows, unsigned *cols);
 void tu_rs28_addmul1(unsigned char *dst, unsigned char *src, unsigned char c, int sz);
+unsigned tu_rs28_activity(unsigned seed);
 #endif
